@@ -374,8 +374,52 @@ def output_case(spec):
             "sample": {"kind": "output", "callback": cbname, "coin": coin, "output_bytes": sizes, "output_writes": len(out_writes), "output_syscalls": len(out_sys)}}
 
 
+# ------------------------------------------------------------------ no fault at all: empty and one-block ranges
+NFILES = {"csvdump": 4, "unspentcsvdump": 1, "balances": 1}
+
+
+def clean_case(spec):
+    """Undisturbed runs whose range holds no block (or one): 'exit 0 => every output file final-named, no *.tmp' has no exception for
+    a run that has nothing to do; a run that refuses the range instead (non-zero exit) must leave no final-named file."""
+    coin, cbname = spec["coin"], spec["callback"]
+    work = harness.fresh(os.path.join(spec["work"], "c%d" % spec["n"]))
+    chain, d, kw, pl_index = prepare(spec, work)
+    binary = core.build("release")
+    tip = chain[-1][0]
+    v, counters, shapes = [], {"clean_runs": 0, "empty_range_runs": 0}, []
+    for label, s, e in (("start=tip+1", tip + 1, None), ("start=tip+20", tip + 20, None), ("start=tip+1,end", tip + 1, tip + 9), ("start=tip", tip, None),
+                        ("end-above-tip", None, tip + 7), ("full", None, None)):
+        dump = harness.fresh(os.path.join(work, "o"))
+        p = harness.run_cb(binary, d, coin, cbname, dump, s, e, timeout=300)
+        counters["clean_runs"] += 1
+        have = harness.read_dump(dump)
+        finals = sorted(n for n in have if is_final(n))
+        tmps = sorted(n for n in have if n.endswith(".tmp"))
+        what = "%s %s on a chain with tip %d, no fault" % (cbname, label, tip)
+        empty = s is not None and s > tip
+        counters["empty_range_runs"] += 1 if empty else 0
+        if p.rc == 0:
+            if tmps:
+                v.append(viol("exit0-tmp-left", "exit 0 but *.tmp files remain: %s, final files %s (%s)" % (tmps, finals, what)))
+            elif len(finals) != NFILES[cbname]:
+                v.append(viol("exit0-missing-output", "exit 0 but %d final-named files %s, the callback writes %d (%s)" % (len(finals), finals, NFILES[cbname], what)))
+            elif empty:
+                rows = sum(max(0, len([ln for ln in have[n].split("\n") if ln]) - (0 if cbname == "csvdump" else 1)) for n in finals)
+                if rows:
+                    v.append(viol("exit0-incomplete-output", "empty range but %d data rows were written (%s)" % (rows, what)))
+            else:
+                bad = {"csvdump": oracles.check_csvdump, "unspentcsvdump": oracles.check_unspent, "balances": oracles.check_balances}[cbname](p, dump, chain, coin, s or 0, e)
+                v.extend(viol("exit0-incomplete-output", "%s: %s (%s)" % (sig, det, what)) for sig, det in bad[:1])
+        elif finals:
+            v.append(viol("failure-leaves-final", "exit %s but final-named files exist: %s (%s)" % (p.rc, finals, what)))
+        shapes.append("clean|%s|%s|exit%s" % (cbname, label, "0" if p.rc == 0 else "!0"))
+    shutil.rmtree(work, ignore_errors=True)
+    return {"evaluations": counters["clean_runs"], "violations": v[:3], "counters": counters, "shapes": shapes,
+            "sample": {"kind": "clean", "callback": cbname, "coin": coin, "tip": tip}}
+
+
 def dispatch(spec):
-    return input_case(spec) if spec["case"] == "input" else output_case(spec)
+    return {"input": input_case, "output": output_case, "clean": clean_case}[spec["case"]](spec)
 
 
 def plan(chk):
@@ -390,6 +434,10 @@ def plan(chk):
                 n += 1
                 specs.append(dict(case="input", callback=cbname, coin=coins[n % 8], seed=chk.seed + rep, chain="in-%d" % n, n=n, nfiles=nfiles, blocks=6,
                                   start=rng_opt[0], end=rng_opt[1], every_byte=chk.thorough, max_cuts=None if chk.thorough else 25, xor=(n % 2 == 0)))
+        for rep in range(4 if chk.thorough else 2):
+            n += 1
+            specs.append(dict(case="clean", callback=cbname, coin=coins[n % 8], seed=chk.seed + rep, chain="clean-%d" % n, n=n, nfiles=1 + rep % 2,
+                              blocks=[1, 6, 2, 9][rep], xor=False))
         # output faults: small (<4 MB buffer) and large outputs
         for mb, faults in ((None, ["fsize", "inject", "kill"]), (110000, ["fsize", "inject", "kill"])):
             n += 1
@@ -426,4 +474,4 @@ def main():
 
 
 def replay(spec):
-    core.replay_case("C10", {"input": input_case, "output": output_case}, spec)
+    core.replay_case("C10", {"input": input_case, "output": output_case, "clean": clean_case}, spec)
